@@ -3,7 +3,6 @@ package main
 import (
 	"reflect"
 	"sort"
-	"unsafe"
 
 	"github.com/ajitpratap0/GoSQLX/pkg/sql/ast"
 )
@@ -93,5 +92,3 @@ func slotsOf(owner reflect.Type) []slot {
 	sort.Slice(out, func(i, j int) bool { return out[i].Name < out[j].Name })
 	return out
 }
-
-func ptrOf(p uintptr) unsafe.Pointer { return unsafe.Pointer(p) } //nolint:govet
